@@ -155,6 +155,9 @@ for _n in (2, 3):
     SPACES[f"no_overlap{_n}"] = (lambda i, n=_n: cplib.space_no_overlap(i, n), lambda n=_n: cplib.size_no_overlap(n))
 for _n in (1, 2, 3, 4):
     SPACES[f"cumulative{_n}"] = (lambda i, n=_n: cplib.space_cumulative(i, n), lambda n=_n: cplib.size_cumulative(n))
+for _n in (2, 3):
+    # a task of duration 0 is never running: it may start anywhere, also strictly inside another task
+    SPACES[f"cumulative{_n}_dur013"] = (lambda i, n=_n: cplib.space_cumulative(i, n, None, (0, 1, 3)), lambda n=_n: cplib.size_cumulative(n))
 SPACES["cumulative4_window03"] = (lambda i: cplib.space_cumulative(i, 4, (0, 3)), lambda: cplib.size_cumulative(4, (0, 3)))
 SPACES["cumulative3_window05"] = (lambda i: cplib.space_cumulative(i, 3, (0, 5)), lambda: cplib.size_cumulative(3, (0, 5)))
 
@@ -297,6 +300,8 @@ def plan(tier, seed):
         ("cumulative1", 1, None),
         ("cumulative2", 2, None),
         ("cumulative3", 8, (seed % 4, 4) if q else None),
+        ("cumulative2_dur013", 2, None),
+        ("cumulative3_dur013", 8, (seed % 4, 4) if q else None),
         ("cumulative4_window03", 8, (seed % 4, 4) if q else None),
         ("cumulative3_window05", 8, (seed % 4, 4) if q else None),
     ]
